@@ -1,12 +1,18 @@
 import Mdns.Lemmas.Sched
+import Mdns.Lemmas.ClientStale
+import Mdns.Props.C03
 /-
   C13  Stopping a search really stops it; channel protocol.
 
-  Model: `Mdns/Model/Sched.lean` (exact on histories without responders; compared with
-  the real daemon on every run).  The theorems hold for any sequence of iterations, however
-  late: they do not assume a timely scheduler.
+  First part: `Mdns/Model/Sched.lean` (exact on histories without responders; compared with
+  the real daemon on every run).  Second part (`section ClientModel`): the client model
+  `Mdns/Model/Client.lean` (compared with the real daemon per iteration: queries, events with
+  payload).  All theorems hold for any sequence of iterations, however late: they do not
+  assume a timely scheduler.
 -/
 namespace Mdns.Props.C13
+
+section SchedFragment
 open Mdns Mdns.Sched
 
 /-- the outputs of a whole history of iterations `(now, commands)` -/
@@ -85,5 +91,723 @@ theorem first_event_started (s : State) (now : Nat) (ty : BList) (ch : Nat) (co 
 example :
     outputs (init 1000000) [(1000000, [.browse [0x5f] 1 false]), (1001000, []), (1001500, [.stopBrowse [0x5f]]), (1003000, [])] =
     [.event 1 .started, .query [([0x5f], 12)], .event 1 .started, .query [([0x5f], 12)], .event 1 .stopped] := by decide
+
+end SchedFragment
+
+/-! ### the client model -/
+
+section ClientModel
+open Mdns Mdns.Rec Mdns.Cache Mdns.Client
+
+/-- the back-off delays of the queued re-runs are between a second and an hour (an invariant of
+    every history: `delays_ok_run`) -/
+def DelaysOk (s : State) : Prop := ∀ r ∈ s.reruns, DelayOk r
+
+/-! #### every output has a cause -/
+
+/-- **Every output of an iteration has a cause** (`Client.Origin`): an event goes to the channel of
+    a browse or hostname search of the state, of a queued re-run, or of a command of this
+    iteration; a PTR question is asked for a browsed type, a queued browse retransmission or a
+    `browse` command; A + AAAA for a hostname search that is open, for a follow-up or for a
+    browsed service; a single A / AAAA question for an open hostname search; and so on.  (The
+    classes of queued re-runs are those queued when the re-run phase starts.) -/
+theorem every_output_has_a_cause (s : State) (now : Nat) (pkts : List Packet) (cmds : List Command) :
+    ∀ o ∈ (iter s now pkts cmds).2, Origin s cmds (midClasses (preCommands s now pkts) now cmds) o :=
+  origin_iter s now pkts cmds
+
+/-! #### a channel nobody uses stays silent -/
+
+/-- **Silent for ever.**  Once no browse, no hostname search and no queued re-run reports to
+    `ch` (`ChanFree`: as after a stop, see below), no later iteration - whenever it runs,
+    whatever arrives, whatever other searches are started, stopped or time out - emits any event
+    on `ch`, until a command gives `ch` to a new search. -/
+theorem silent_for_ever (ch : Nat) : ∀ (h : List (Nat × List Packet × List Command)) (s : State),
+    ChanFree ch s → DelaysOk s → (∀ it ∈ h, ∀ c ∈ it.2.2, cchan c ≠ some ch) →
+    (∀ t e, (t, Out.event ch e) ∉ (run s h).2) ∧ ChanFree ch (run s h).1 ∧ DelaysOk (run s h).1
+  | [], s, hf, hD, _ => ⟨fun _ _ hm => (by cases hm), hf, hD⟩
+  | (now, pkts, cmds) :: rest, s, hf, hD, hc => by
+    obtain ⟨h1, h2, h3⟩ := chanFree_iter ch s now pkts cmds hf hD (hc _ List.mem_cons_self)
+    obtain ⟨h4, h5, h6⟩ := silent_for_ever ch rest _ h2 h3 (fun it hit => hc it (List.mem_cons_of_mem _ hit))
+    simp only [run]
+    refine ⟨?_, h5, h6⟩
+    intro t e hm
+    rcases List.mem_append.mp hm with hm | hm
+    · obtain ⟨o, ho, he⟩ := List.mem_map.mp hm
+      cases he
+      exact h1 e ho
+    · exact h4 t e hm
+
+theorem chanFree_init (ch t0 : Nat) (intfs : List Intf) : ChanFree ch (init t0 intfs) ∧ DelaysOk (init t0 intfs) :=
+  ⟨⟨fun _ h => (by cases h), fun _ h => (by cases h), fun _ h => (by cases h)⟩, fun _ h => (by cases h)⟩
+
+/-! #### the first event on a channel is `SearchStarted` -/
+
+theorem quiet_before_command (ch : Nat) (s : State) (now : Nat) (pkts : List Packet) (pre : List Command)
+    (hf : ChanFree ch s) (hD : DelaysOk s) (hpre : ∀ c ∈ pre, cchan c ≠ some ch) :
+    (∀ e, Out.event ch e ∉ (ingress s now pkts).2 ++ (runTimeouts (popTimers (ingress s now pkts).1 now) now).2 ++
+      (runCommands (preCommands s now pkts) now pre).2) ∧
+    ChanFree ch (runCommands (preCommands s now pkts) now pre).1 ∧
+    DelaysOk (runCommands (preCommands s now pkts) now pre).1 := by
+  obtain ⟨h1, hD1⟩ := SInv.preCommands hf now pkts hD (fun x hx => by cases hx)
+  have hckey : ∀ c ∈ pre, ∀ y, ckey c = some y → y.2.2 ≠ ch := by
+    intro c hcm y hy
+    have := hpre c hcm
+    cases c <;> simp [ckey] at hy <;> simp [cchan] at this <;> (subst hy; simpa using this)
+  have ht := SInv.tail h1 now pre hD1
+    (fun ty ch' co h => by have := hpre _ h; simpa [cchan] using this)
+    (fun h ch' t dl hm => by have := hpre _ hm; simpa [cchan] using this)
+    (fun x hx => by cases hx) hckey
+  have hst := step_runCommands (now := now) (cmds := pre) (KeyOK := fun _ => True) (OK := fun _ => True) trivial pre
+    (preCommands s now pkts) (fun _ h => h) (fun _ _ _ _ => trivial) (fun _ _ => trivial)
+  refine ⟨?_, ht.1, delayOk_of_step hst hD1⟩
+  intro e he
+  simp only [List.mem_append] at he
+  rcases he with (he | he) | he
+  · exact no_event_of_chanFree ch s [] [] e ⟨hf.queriers, hf.resolvers, fun _ _ => trivial⟩ (fun _ h => by cases h)
+      (fun _ h => by cases h) (fun _ h => by cases h) (origin_ingress [] [] now pkts s _ he)
+  · refine no_event_of_chanFree ch (popTimers (ingress s now pkts).1 now) [] [] e ⟨?_, ?_, fun _ _ => trivial⟩
+      (fun _ h => by cases h) (fun _ h => by cases h) (fun _ h => by cases h) (origin_runTimeouts _ [] [] now _ he)
+    · intro q hq
+      exact hf.queriers q (by simpa [popTimers] using hq)
+    · intro q hq
+      exact hf.resolvers q (by simpa [popTimers] using hq)
+  · exact no_event_of_chanFree ch (preCommands s now pkts) pre [] e ⟨h1.queriers, h1.resolvers, fun _ _ => trivial⟩ hpre
+      (fun _ h => by cases h) (fun _ h => by cases h) (origin_runCommands pre [] now pre _ (fun _ h => h) _ he)
+
+/-- **The first event on a browse channel is `SearchStarted`.**  `ch` is not in use; an iteration
+    processes the commands `pre`, which do not mention `ch`, then `browse(ty)` on `ch`: the
+    outputs of the iteration are `a ++ SearchStarted(ch) :: b` with no event on `ch` in `a`.
+    (With `silent_for_ever` from the start of the daemon: nothing on `ch` in earlier iterations.) -/
+theorem first_event_started_browse (ch : Nat) (s : State) (now : Nat) (pkts : List Packet) (pre : List Command)
+    (ty : BList) (co : Bool) (post : List Command) (hf : ChanFree ch s) (hD : DelaysOk s)
+    (hpre : ∀ c ∈ pre, cchan c ≠ some ch) :
+    ∃ a b, (iter s now pkts (pre ++ .browse ty ch co :: post)).2 = a ++ Out.event ch .started :: b ∧
+      ∀ e, Out.event ch e ∉ a := by
+  obtain ⟨hq, _, _⟩ := quiet_before_command ch s now pkts pre hf hD hpre
+  have hsplit := (iter_split s now pkts pre (.browse ty ch co) post).2
+  have hhead : ∃ b0, (execCommand (runCommands (preCommands s now pkts) now pre).1 now (.browse ty ch co)).2 =
+      Out.event ch .started :: b0 := by
+    simp only [execCommand, execBrowse, Bool.false_eq_true, if_false]
+    split <;> exact ⟨_, rfl⟩
+  obtain ⟨b0, hb0⟩ := hhead
+  refine ⟨((ingress s now pkts).2 ++ (runTimeouts (popTimers (ingress s now pkts).1 now) now).2 ++
+    (runCommands (preCommands s now pkts) now pre).2),
+    b0 ++ tailOuts (execCommand (runCommands (preCommands s now pkts) now pre).1 now (.browse ty ch co)).1 now post,
+    ?_, hq⟩
+  rw [hsplit, hb0]
+  simp only [List.append_assoc, List.cons_append]
+
+/-- **The first event on a hostname-search channel is `SearchStarted`.** -/
+theorem first_event_started_resolve (ch : Nat) (s : State) (now : Nat) (pkts : List Packet) (pre : List Command)
+    (host : BList) (t : Option Nat) (post : List Command) (hf : ChanFree ch s) (hD : DelaysOk s)
+    (hpre : ∀ c ∈ pre, cchan c ≠ some ch) :
+    ∃ a b, (iter s now pkts (pre ++ .resolveHost host ch t :: post)).2 = a ++ Out.event ch .hstarted :: b ∧
+      ∀ e, Out.event ch e ∉ a := by
+  obtain ⟨hq, _, _⟩ := quiet_before_command ch s now pkts pre hf hD hpre
+  have hsplit := (iter_split s now pkts pre (.resolveHost host ch t) post).2
+  have hhead : ∃ b0, (execCommand (runCommands (preCommands s now pkts) now pre).1 now (.resolveHost host ch t)).2 =
+      Out.event ch .hstarted :: b0 := by
+    simp only [execCommand, execResolveHost, Bool.false_and, Bool.false_eq_true, if_false]
+    exact ⟨_, rfl⟩
+  obtain ⟨b0, hb0⟩ := hhead
+  refine ⟨((ingress s now pkts).2 ++ (runTimeouts (popTimers (ingress s now pkts).1 now) now).2 ++
+    (runCommands (preCommands s now pkts) now pre).2),
+    b0 ++ tailOuts (execCommand (runCommands (preCommands s now pkts) now pre).1 now (.resolveHost host ch t)).1 now post,
+    ?_, hq⟩
+  rw [hsplit, hb0]
+  simp only [List.append_assoc, List.cons_append]
+
+/-! #### a search owns its channel -/
+
+/-- a command that does not mention `ch` respects "only the browse of `ty` uses `ch`" -/
+theorem onlyBrowse_iter (ch : Nat) (ty : BList) (s : State) (now : Nat) (pkts : List Packet) (cmds : List Command)
+    (ho : OnlyBrowse ch ty s) (hD : DelaysOk s) (hc : ∀ c ∈ cmds, cchan c ≠ some ch) :
+    OnlyBrowse ch ty (iter s now pkts cmds).1 ∧ DelaysOk (iter s now pkts cmds).1 := by
+  apply SInv.iter ho now pkts cmds hD
+  · intro ty' ch' co h he
+    have := hc _ h
+    simp only [cchan] at this
+    exact absurd (by simp only at he; exact congrArg some he) this
+  · intro h ch' t dl hm
+    have := hc _ hm
+    simpa [cchan] using this
+  · intro x hx
+    cases hx
+  · intro c hcm y hy he
+    have := hc c hcm
+    cases c <;> simp [ckey] at hy <;> simp [cchan] at this <;> (subst hy; simp at he; exact absurd he this)
+
+theorem onlyHost_iter (ch : Nat) (key : BList) (s : State) (now : Nat) (pkts : List Packet) (cmds : List Command)
+    (ho : OnlyHost ch key s) (hD : DelaysOk s) (hc : ∀ c ∈ cmds, cchan c ≠ some ch) :
+    OnlyHost ch key (iter s now pkts cmds).1 ∧ DelaysOk (iter s now pkts cmds).1 := by
+  apply SInv.iter ho now pkts cmds hD
+  · intro ty' ch' co h
+    have := hc _ h
+    simpa [cchan] using this
+  · intro h ch' t dl hm he
+    have := hc _ hm
+    simp only [cchan] at this
+    exact absurd (by simp only at he; exact congrArg some he) this
+  · intro x hx
+    cases hx
+  · intro c hcm y hy he
+    have := hc c hcm
+    cases c <;> simp [ckey] at hy <;> simp [cchan] at this <;> (subst hy; simp at he; exact absurd he this)
+
+/-- **`browse(ty)` on a channel that is not in use makes the browse its only user**, at the end
+    of that iteration (the other commands of the iteration do not mention `ch`) -/
+theorem browse_owns_channel (ch : Nat) (s : State) (now : Nat) (pkts : List Packet) (pre : List Command) (ty : BList)
+    (co : Bool) (post : List Command) (hf : ChanFree ch s) (hD : DelaysOk s) (hpre : ∀ c ∈ pre, cchan c ≠ some ch)
+    (hpost : ∀ c ∈ post, cchan c ≠ some ch) :
+    OnlyBrowse ch ty (iter s now pkts (pre ++ .browse ty ch co :: post)).1 ∧
+    DelaysOk (iter s now pkts (pre ++ .browse ty ch co :: post)).1 := by
+  obtain ⟨_, hf0, hD0⟩ := quiet_before_command ch s now pkts pre hf hD hpre
+  have hst := step_execCommand (now := now) (cmds := [.browse ty ch co])
+    (KeyOK := fun k => k = none ∨ k = some (0, ty, ch)) (OK := fun _ => True)
+    (runCommands (preCommands s now pkts) now pre).1 (.browse ty ch co) (by simp) (fun _ _ => trivial) (Or.inl rfl) (Or.inr rfl)
+  have h1 : OnlyBrowse ch ty (execCommand (runCommands (preCommands s now pkts) now pre).1 now (.browse ty ch co)).1 := by
+    refine SInv.step hst (hf0.onlyBrowse ty) ?_ ?_ ?_
+    · intro ty' ch' co' h _
+      simp only [List.mem_singleton, Command.browse.injEq] at h
+      exact h.1
+    · intro h ch' t dl hm
+      simp at hm
+    · rintro k (rfl | rfl) x hx he
+      · cases hx
+      · cases hx
+        rfl
+  have hD1 := delayOk_of_step hst hD0
+  have ht := SInv.tail h1 now post hD1
+    (fun ty' ch' co' h he => by
+      have := hpost _ h
+      simp only [cchan] at this
+      exact absurd (by simp only at he; exact congrArg some he) this)
+    (fun h ch' t dl hm => by have := hpost _ hm; simpa [cchan] using this)
+    (fun x hx => by cases hx)
+    (by
+      intro c hcm y hy he
+      have := hpost c hcm
+      cases c <;> simp [ckey] at hy <;> simp [cchan] at this <;> (subst hy; simp at he; exact absurd he this))
+  rw [(iter_split s now pkts pre (.browse ty ch co) post).1]
+  exact ⟨ht.2.1, ht.2.2⟩
+
+/-- **`resolve_hostname(host)` on a channel that is not in use makes the search its only user** -/
+theorem resolve_owns_channel (ch : Nat) (s : State) (now : Nat) (pkts : List Packet) (pre : List Command) (host : BList)
+    (t : Option Nat) (post : List Command) (hf : ChanFree ch s) (hD : DelaysOk s) (hpre : ∀ c ∈ pre, cchan c ≠ some ch)
+    (hpost : ∀ c ∈ post, cchan c ≠ some ch) :
+    OnlyHost ch (lower host) (iter s now pkts (pre ++ .resolveHost host ch t :: post)).1 ∧
+    DelaysOk (iter s now pkts (pre ++ .resolveHost host ch t :: post)).1 := by
+  obtain ⟨_, hf0, hD0⟩ := quiet_before_command ch s now pkts pre hf hD hpre
+  have hst := step_execCommand (now := now) (cmds := [.resolveHost host ch t])
+    (KeyOK := fun k => k = none ∨ k = some (1, host, ch)) (OK := fun _ => True)
+    (runCommands (preCommands s now pkts) now pre).1 (.resolveHost host ch t) (by simp) (fun _ _ => trivial) (Or.inl rfl)
+    (Or.inr rfl)
+  have h1 : OnlyHost ch (lower host)
+      (execCommand (runCommands (preCommands s now pkts) now pre).1 now (.resolveHost host ch t)).1 := by
+    refine SInv.step hst (hf0.onlyHost (lower host)) ?_ ?_ ?_
+    · intro ty' ch' co' h
+      simp at h
+    · intro h ch' t' dl hm _
+      simp only [List.mem_singleton, Command.resolveHost.injEq] at hm
+      rw [hm.1]
+    · rintro k (rfl | rfl) x hx he
+      · cases hx
+      · cases hx
+        exact ⟨rfl, rfl⟩
+  have hD1 := delayOk_of_step hst hD0
+  have ht := SInv.tail h1 now post hD1
+    (fun ty' ch' co' h => by have := hpost _ h; simpa [cchan] using this)
+    (fun h ch' t' dl hm he => by
+      have := hpost _ hm
+      simp only [cchan] at this
+      exact absurd (by simp only at he; exact congrArg some he) this)
+    (fun x hx => by cases hx)
+    (by
+      intro c hcm y hy he
+      have := hpost c hcm
+      cases c <;> simp [ckey] at hy <;> simp [cchan] at this <;> (subst hy; simp at he; exact absurd he this))
+  rw [(iter_split s now pkts pre (.resolveHost host ch t) post).1]
+  exact ⟨ht.2.1, ht.2.2⟩
+
+/-! #### `SearchStopped` is the last event, and comes once -/
+
+/-- **`stop_browse` really stops (the iteration of the stop).**  The browse of `ty` is the only
+    user of `ch`; an iteration processes commands `pre` (not mentioning `ch`), finds the browse
+    of `ty` still running on `ch`, processes `stop_browse(ty)` and then `post` (not mentioning
+    `ch`).  Then the stop emits exactly `SearchStopped(ty)` on `ch`, the rest of the iteration
+    emits nothing on `ch`, and afterwards nobody uses `ch`: by `silent_for_ever` no later
+    iteration emits anything on it - `SearchStopped` is the last event and is not repeated. -/
+theorem stop_browse_final (ch : Nat) (ty : BList) (s : State) (now : Nat) (pkts : List Packet)
+    (pre post : List Command) (ho : OnlyBrowse ch ty s) (hD : DelaysOk s)
+    (hpre : ∀ c ∈ pre, cchan c ≠ some ch) (hpost : ∀ c ∈ post, cchan c ≠ some ch)
+    (hq : (runCommands (preCommands s now pkts) now pre).1.queriers.find? (·.1 == ty) = some (ty, ch)) :
+    ∃ a b, (iter s now pkts (pre ++ .stopBrowse ty :: post)).2 = a ++ Out.event ch (.stopped ty) :: b ∧
+      (∀ e, Out.event ch e ∉ b) ∧
+      ChanFree ch (iter s now pkts (pre ++ .stopBrowse ty :: post)).1 ∧
+      DelaysOk (iter s now pkts (pre ++ .stopBrowse ty :: post)).1 := by
+  obtain ⟨h1, hD1⟩ := SInv.preCommands ho now pkts hD (fun x hx => by cases hx)
+  have hckey : ∀ l : List Command, (∀ c ∈ l, cchan c ≠ some ch) →
+      ∀ c ∈ l, ∀ y, ckey c = some y → y.2.2 = ch → y = (0, ty, ch) := by
+    intro l hl c hcm y hy he
+    have := hl c hcm
+    cases c <;> simp [ckey] at hy <;> simp [cchan] at this <;> (subst hy; simp at he; exact absurd he this)
+  have ht := SInv.tail h1 now pre hD1
+    (fun ty' ch' co h he => by
+      have := hpre _ h
+      simp only [cchan] at this
+      exact absurd (by simp only at he; exact congrArg some he) this)
+    (fun h ch' t dl hm => by have := hpre _ hm; simpa [cchan] using this)
+    (fun x hx => by cases hx) (hckey pre hpre)
+  have hst := step_runCommands (now := now) (cmds := pre) (KeyOK := fun _ => True) (OK := fun _ => True) trivial pre
+    (preCommands s now pkts) (fun _ h => h) (fun _ _ _ _ => trivial) (fun _ _ => trivial)
+  have hD2 := delayOk_of_step hst hD1
+  obtain ⟨s1, _, s3, s4⟩ := stopBrowse_spec (runCommands (preCommands s now pkts) now pre).1 ty ch hq
+  have hf := s3 ht.1
+  have hD3 : DelaysOk (execStopBrowse (runCommands (preCommands s now pkts) now pre).1 ty).1 :=
+    fun r hr => hD2 r (s4 r hr)
+  obtain ⟨t1, t2, t3⟩ := chanFree_tail ch _ now post hf hD3 hpost
+  have hsplit := iter_split s now pkts pre (.stopBrowse ty) post
+  refine ⟨((ingress s now pkts).2 ++ (runTimeouts (popTimers (ingress s now pkts).1 now) now).2 ++
+    (runCommands (preCommands s now pkts) now pre).2),
+    tailOuts (execCommand (runCommands (preCommands s now pkts) now pre).1 now (.stopBrowse ty)).1 now post, ?_, ?_, ?_, ?_⟩
+  · rw [hsplit.2]
+    show _ ++ (execStopBrowse (runCommands (preCommands s now pkts) now pre).1 ty).2 ++ _ = _
+    rw [s1]
+    simp only [List.append_assoc, List.cons_append, List.nil_append]
+  · exact t1
+  · rw [hsplit.1]
+    exact t2
+  · rw [hsplit.1]
+    exact t3
+
+/-- **`stop_resolve_hostname` really stops (the iteration of the stop)**, in whatever letter
+    case the name is given -/
+theorem stop_resolve_final (ch : Nat) (host : BList) (dl : Option Nat) (s : State) (now : Nat) (pkts : List Packet)
+    (pre post : List Command) (ho : OnlyHost ch (lower host) s) (hD : DelaysOk s)
+    (hpre : ∀ c ∈ pre, cchan c ≠ some ch) (hpost : ∀ c ∈ post, cchan c ≠ some ch)
+    (hq : (runCommands (preCommands s now pkts) now pre).1.resolvers.find? (·.1 == lower host) =
+      some (lower host, ch, dl)) :
+    ∃ a b, (iter s now pkts (pre ++ .stopResolve host :: post)).2 = a ++ Out.event ch (.hstopped (lower host)) :: b ∧
+      (∀ e, Out.event ch e ∉ b) ∧
+      ChanFree ch (iter s now pkts (pre ++ .stopResolve host :: post)).1 ∧
+      DelaysOk (iter s now pkts (pre ++ .stopResolve host :: post)).1 := by
+  obtain ⟨h1, hD1⟩ := SInv.preCommands ho now pkts hD (fun x hx => by cases hx)
+  have ht := SInv.tail h1 now pre hD1
+    (fun ty' ch' co h => by have := hpre _ h; simpa [cchan] using this)
+    (fun h ch' t dl' hm he => by
+      have := hpre _ hm
+      simp only [cchan] at this
+      exact absurd (by simp only at he; exact congrArg some he) this)
+    (fun x hx => by cases hx)
+    (by
+      intro c hcm y hy he
+      have := hpre c hcm
+      cases c <;> simp [ckey] at hy <;> simp [cchan] at this <;> (subst hy; simp at he; exact absurd he this))
+  have hst := step_runCommands (now := now) (cmds := pre) (KeyOK := fun _ => True) (OK := fun _ => True) trivial pre
+    (preCommands s now pkts) (fun _ h => h) (fun _ _ _ _ => trivial) (fun _ _ => trivial)
+  have hD2 := delayOk_of_step hst hD1
+  obtain ⟨s1, _, s3, s4, _⟩ := stopResolve_spec (runCommands (preCommands s now pkts) now pre).1 host ch dl hq
+  have hf := s3 ht.1
+  have hD3 : DelaysOk (execStopResolve (runCommands (preCommands s now pkts) now pre).1 host).1 :=
+    fun r hr => hD2 r (s4 r hr)
+  obtain ⟨t1, t2, t3⟩ := chanFree_tail ch _ now post hf hD3 hpost
+  have hsplit := iter_split s now pkts pre (.stopResolve host) post
+  refine ⟨((ingress s now pkts).2 ++ (runTimeouts (popTimers (ingress s now pkts).1 now) now).2 ++
+    (runCommands (preCommands s now pkts) now pre).2),
+    tailOuts (execCommand (runCommands (preCommands s now pkts) now pre).1 now (.stopResolve host)).1 now post,
+    ?_, ?_, ?_, ?_⟩
+  · rw [hsplit.2]
+    show _ ++ (execStopResolve (runCommands (preCommands s now pkts) now pre).1 host).2 ++ _ = _
+    rw [s1]
+    simp only [List.append_assoc, List.cons_append, List.nil_append]
+  · exact t1
+  · rw [hsplit.1]
+    exact t2
+  · rw [hsplit.1]
+    exact t3
+
+/-! #### no query caused by a stopped search -/
+
+/-- **No PTR query for a type that is not browsed**, in any later history: once nothing is
+    browsed or queued for `ty` (`BrowseGone`, as `stop_browse` leaves it: `stop_browse_gone`), no
+    iteration - whenever it runs, whatever arrives, whatever other searches do - asks
+    `[(ty, PTR)]`, until `browse(ty)` is called again. -/
+theorem no_ptr_query_after_stop (ty : BList) : ∀ (h : List (Nat × List Packet × List Command)) (s : State),
+    BrowseGone ty s → DelaysOk s → (∀ it ∈ h, ∀ ch co, Command.browse ty ch co ∉ it.2.2) →
+    (∀ t known, (t, Out.query [(ty, 12)] known) ∉ (run s h).2) ∧ BrowseGone ty (run s h).1 ∧ DelaysOk (run s h).1
+  | [], s, hf, hD, _ => ⟨fun _ _ hm => (by cases hm), hf, hD⟩
+  | (now, pkts, cmds) :: rest, s, hf, hD, hc => by
+    obtain ⟨h1, h2, h3⟩ := browseGone_iter ty s now pkts cmds hf hD (hc _ List.mem_cons_self)
+    obtain ⟨h4, h5, h6⟩ := no_ptr_query_after_stop ty rest _ h2 h3 (fun it hit => hc it (List.mem_cons_of_mem _ hit))
+    simp only [run]
+    refine ⟨?_, h5, h6⟩
+    intro t known hm
+    rcases List.mem_append.mp hm with hm | hm
+    · obtain ⟨o, ho, he⟩ := List.mem_map.mp hm
+      cases he
+      exact h1 known ho
+    · exact h4 t known hm
+
+/-- `stop_browse(ty)` on a running browse leaves nothing browsed or queued for `ty` at the end of
+    its iteration (no `browse(ty)` after it in that iteration), and the rest of the iteration
+    asks no PTR question for `ty` -/
+theorem stop_browse_gone (ty : BList) (ch : Nat) (s : State) (now : Nat) (pkts : List Packet) (pre post : List Command)
+    (hD : DelaysOk s) (hpost : ∀ ch' co, Command.browse ty ch' co ∉ post)
+    (hq : (runCommands (preCommands s now pkts) now pre).1.queriers.find? (·.1 == ty) = some (ty, ch)) :
+    (∀ known, Out.query [(ty, 12)] known ∉
+      tailOuts (execCommand (runCommands (preCommands s now pkts) now pre).1 now (.stopBrowse ty)).1 now post) ∧
+    BrowseGone ty (iter s now pkts (pre ++ .stopBrowse ty :: post)).1 ∧
+    DelaysOk (iter s now pkts (pre ++ .stopBrowse ty :: post)).1 := by
+  have hing := step_ingress (now := now) (cmds := []) (KeyOK := fun k => k = none) (OK := fun _ => True) rfl pkts s
+    (fun _ _ => trivial)
+  have hD1 : DelaysOk (preCommands s now pkts) := fun r hr => delayOk_of_step hing hD r hr
+  have hst := step_runCommands (now := now) (cmds := pre) (KeyOK := fun _ => True) (OK := fun _ => True) trivial pre
+    (preCommands s now pkts) (fun _ h => h) (fun _ _ _ _ => trivial) (fun _ _ => trivial)
+  have hD2 := delayOk_of_step hst hD1
+  obtain ⟨_, s2, _, s4⟩ := stopBrowse_spec (runCommands (preCommands s now pkts) now pre).1 ty ch hq
+  have hD3 : DelaysOk (execStopBrowse (runCommands (preCommands s now pkts) now pre).1 ty).1 :=
+    fun r hr => hD2 r (s4 r hr)
+  obtain ⟨t1, t2, t3⟩ := browseGone_tail ty _ now post s2 hD3 hpost
+  rw [(iter_split s now pkts pre (.stopBrowse ty) post).1]
+  exact ⟨t1, t2, t3⟩
+
+/-- **No address query for a host name that is not searched**, in any later history, for a
+    daemon that browses nothing (as the monitor assumes: with a browse, A / AAAA questions for
+    the host of a browsed service are legitimate): once no hostname search for `key` is open
+    or queued (`HostGone`, as `stop_resolve_hostname` leaves it), no iteration asks A + AAAA for
+    a name that lower-cases to `key`, nor a single A / AAAA question for `key`, until
+    `resolve_hostname` is called for that name again (in any letter case). -/
+theorem no_host_query_after_stop (key : BList) : ∀ (h : List (Nat × List Packet × List Command)) (s : State),
+    HostGone key s → NoBrowseWork s → DelaysOk s →
+    (∀ it ∈ h, (∀ h0 ch t, Command.resolveHost h0 ch t ∈ it.2.2 → lower h0 ≠ key) ∧
+      it.2.2.all (fun c => !isBrowseCommand c) = true) →
+    (∀ t o, (t, o) ∈ (run s h).2 → asksHost key o = false) ∧ HostGone key (run s h).1
+  | [], s, hf, _, _, _ => ⟨fun _ _ hm => (by cases hm), hf⟩
+  | (now, pkts, cmds) :: rest, s, hf, hw, hD, hc => by
+    have hc0 := hc _ List.mem_cons_self
+    obtain ⟨h1, h2, h3, h4⟩ := hostGone_iter key s now pkts cmds hf hw hD hc0.1 hc0.2
+    obtain ⟨h5, h6⟩ := no_host_query_after_stop key rest _ h2 h3 h4 (fun it hit => hc it (List.mem_cons_of_mem _ hit))
+    simp only [run]
+    refine ⟨?_, h6⟩
+    intro t o hm
+    rcases List.mem_append.mp hm with hm | hm
+    · obtain ⟨o', ho, he⟩ := List.mem_map.mp hm
+      simp only [Prod.mk.injEq] at he
+      exact he.2 ▸ h1 o' ho
+    · exact h5 t o hm
+
+/-- the delays are fine after every history from the start of the daemon -/
+theorem delays_ok_run (t0 : Nat) (intfs : List Intf) (h : List (Nat × List Packet × List Command)) :
+    DelaysOk (run (init t0 intfs) h).1 := by
+  have : ∀ (h : List (Nat × List Packet × List Command)) (hist : List Delivery) (s : State), CacheProv hist s.cache →
+      DelaysOk s → DelaysOk (run s h).1 := by
+    intro h
+    induction h with
+    | nil => intro _ _ _ hD; exact hD
+    | cons it rest ih =>
+      intro hist s hc hD
+      obtain ⟨now, pkts, cmds⟩ := it
+      simp only [run]
+      exact ih _ _ (ok_iter hist s now pkts cmds hc).1 (delayOk_iter hist s now pkts cmds hc hD)
+  exact this h [] _ (cacheProv_empty []) (fun _ hr => by cases hr)
+
+/-! #### the life of a channel over a whole history -/
+
+theorem running_after_browse (ty : BList) (ch : Nat) (co : Bool) (s : State) (now : Nat) :
+    Running ty ch (execCommand s now (.browse ty ch co)).1 := by
+  unfold Running
+  have hq : (execCommand s now (.browse ty ch co)).1.queriers = (ty, ch) :: s.queriers.filter (fun q => q.1 != ty) := by
+    simp only [execCommand, execBrowse, Bool.false_eq_true, if_false]
+    split <;> simp only [addRerun_queriers, queryCacheForService, addPendings_queriers, markResolved_queriers]
+  rw [hq]
+  simp
+
+theorem searching_after_resolve (host : BList) (ch : Nat) (t : Option Nat) (s : State) (now : Nat) :
+    Searching (lower host) ch (t.map (now + ·)) (execCommand s now (.resolveHost host ch t)).1 := by
+  unfold Searching
+  show (execResolveHost s now false host 1 ch t).1.resolvers.find? _ = _
+  rw [execResolveHost_new_resolvers]
+  simp
+
+theorem running_run (ty : BList) (ch : Nat) : ∀ (h : List (Nat × List Packet × List Command)) (s : State),
+    (∀ it ∈ h, it.2.2.all (fun c => !touchesType ty c) = true) → Running ty ch s → Running ty ch (run s h).1
+  | [], _, _, hr => hr
+  | (now, pkts, cmds) :: rest, s, hc, hr => by
+    simp only [run]
+    exact running_run ty ch rest _ (fun it hit => hc it (List.mem_cons_of_mem _ hit))
+      (running_iter ty ch s now pkts cmds (hc _ List.mem_cons_self) hr)
+
+theorem onlyBrowse_run (ch : Nat) (ty : BList) : ∀ (h : List (Nat × List Packet × List Command)) (s : State),
+    OnlyBrowse ch ty s → DelaysOk s → (∀ it ∈ h, ∀ c ∈ it.2.2, cchan c ≠ some ch) →
+    OnlyBrowse ch ty (run s h).1 ∧ DelaysOk (run s h).1
+  | [], _, ho, hD, _ => ⟨ho, hD⟩
+  | (now, pkts, cmds) :: rest, s, ho, hD, hc => by
+    obtain ⟨h1, h2⟩ := onlyBrowse_iter ch ty s now pkts cmds ho hD (hc _ List.mem_cons_self)
+    simp only [run]
+    exact onlyBrowse_run ch ty rest _ h1 h2 (fun it hit => hc it (List.mem_cons_of_mem _ hit))
+
+theorem searching_run (key : BList) (ch : Nat) (dl : Option Nat) : ∀ (h : List (Nat × List Packet × List Command)) (s : State),
+    (∀ it ∈ h, it.2.2.all (fun c => !touchesHost key c) = true ∧ ∀ t, dl = some t → it.1 < t) →
+    Searching key ch dl s → Searching key ch dl (run s h).1
+  | [], _, _, hr => hr
+  | (now, pkts, cmds) :: rest, s, hc, hr => by
+    simp only [run]
+    exact searching_run key ch dl rest _ (fun it hit => hc it (List.mem_cons_of_mem _ hit))
+      (searching_iter key ch dl s now pkts cmds (hc _ List.mem_cons_self).1 (hc _ List.mem_cons_self).2 hr)
+
+theorem onlyHost_run (ch : Nat) (key : BList) : ∀ (h : List (Nat × List Packet × List Command)) (s : State),
+    OnlyHost ch key s → DelaysOk s → (∀ it ∈ h, ∀ c ∈ it.2.2, cchan c ≠ some ch) →
+    OnlyHost ch key (run s h).1 ∧ DelaysOk (run s h).1
+  | [], _, ho, hD, _ => ⟨ho, hD⟩
+  | (now, pkts, cmds) :: rest, s, ho, hD, hc => by
+    obtain ⟨h1, h2⟩ := onlyHost_iter ch key s now pkts cmds ho hD (hc _ List.mem_cons_self)
+    simp only [run]
+    exact onlyHost_run ch key rest _ h1 h2 (fun it hit => hc it (List.mem_cons_of_mem _ hit))
+
+/-- **The life of a browse channel, over a whole history from the start of the daemon.**
+    `h1`: any history that never mentions `ch`.  Then an iteration whose commands are
+    `pre1 ++ browse(ty) on ch :: post1`.  `h2`: any history.  Then an iteration whose commands are
+    `pre2 ++ stop_browse(ty) :: post2`.  `h3`: any history.  No other command mentions `ch`, and
+    between the browse and the stop no command browses or stops `ty` again (the browse is the
+    one that is stopped).  Then, on channel `ch`:
+    1. nothing during `h1`;
+    2. in the iteration of the browse the first event is `SearchStarted`;
+    3. in the iteration of the stop, `SearchStopped(ty)` is emitted and nothing after it;
+    4. nothing during `h3` - however long, whatever arrives. -/
+theorem browse_channel_lifecycle (t0 : Nat) (intfs : List Intf) (ch : Nat) (ty : BList) (co : Bool)
+    (h1 h2 h3 : List (Nat × List Packet × List Command)) (t1 t2 : Nat) (p1 p2 : List Packet)
+    (pre1 post1 pre2 post2 : List Command)
+    (hc1 : ∀ it ∈ h1, ∀ c ∈ it.2.2, cchan c ≠ some ch) (hpre1 : ∀ c ∈ pre1, cchan c ≠ some ch)
+    (hpost1 : ∀ c ∈ post1, cchan c ≠ some ch) (hc2 : ∀ it ∈ h2, ∀ c ∈ it.2.2, cchan c ≠ some ch)
+    (hpre2 : ∀ c ∈ pre2, cchan c ≠ some ch) (hpost2 : ∀ c ∈ post2, cchan c ≠ some ch)
+    (hc3 : ∀ it ∈ h3, ∀ c ∈ it.2.2, cchan c ≠ some ch)
+    (hk1 : post1.all (fun c => !touchesType ty c) = true)
+    (hk2 : ∀ it ∈ h2, it.2.2.all (fun c => !touchesType ty c) = true)
+    (hk3 : pre2.all (fun c => !touchesType ty c) = true) :
+    let s1 := (run (init t0 intfs) h1).1
+    let s2 := (iter s1 t1 p1 (pre1 ++ .browse ty ch co :: post1)).1
+    let s3 := (run s2 h2).1
+    let s4 := (iter s3 t2 p2 (pre2 ++ .stopBrowse ty :: post2)).1
+    (∀ t e, (t, Out.event ch e) ∉ (run (init t0 intfs) h1).2) ∧
+    (∃ a b, (iter s1 t1 p1 (pre1 ++ .browse ty ch co :: post1)).2 = a ++ Out.event ch .started :: b ∧
+      ∀ e, Out.event ch e ∉ a) ∧
+    (∃ a b, (iter s3 t2 p2 (pre2 ++ .stopBrowse ty :: post2)).2 = a ++ Out.event ch (.stopped ty) :: b ∧
+      ∀ e, Out.event ch e ∉ b) ∧
+    (∀ t e, (t, Out.event ch e) ∉ (run s4 h3).2) := by
+  intro s1 s2 s3 s4
+  obtain ⟨hf0, hD0⟩ := chanFree_init ch t0 intfs
+  obtain ⟨q1, hf1, hD1⟩ := silent_for_ever ch h1 _ hf0 hD0 hc1
+  have hstart := first_event_started_browse ch s1 t1 p1 pre1 ty co post1 hf1 hD1 hpre1
+  obtain ⟨ho2, hD2⟩ := browse_owns_channel ch s1 t1 p1 pre1 ty co post1 hf1 hD1 hpre1 hpost1
+  have hr2 : Running ty ch s2 := by
+    show Running ty ch (iter s1 t1 p1 (pre1 ++ .browse ty ch co :: post1)).1
+    rw [(iter_split s1 t1 p1 pre1 (.browse ty ch co) post1).1]
+    exact running_tail ty ch _ t1 post1 hk1 (running_after_browse ty ch co _ t1)
+  obtain ⟨ho3, hD3⟩ := onlyBrowse_run ch ty h2 s2 ho2 hD2 hc2
+  have hr3 : Running ty ch s3 := running_run ty ch h2 s2 hk2 hr2
+  have hq : (runCommands (preCommands s3 t2 p2) t2 pre2).1.queriers.find? (·.1 == ty) = some (ty, ch) := by
+    apply running_runCommands ty ch t2 pre2 _ hk3
+    unfold Running
+    rw [preCommands_queriers]
+    exact hr3
+  obtain ⟨a, b, hab, hb, hf4, hD4⟩ := stop_browse_final ch ty s3 t2 p2 pre2 post2 ho3 hD3 hpre2 hpost2 hq
+  exact ⟨q1, hstart, ⟨a, b, hab, hb⟩, (silent_for_ever ch h3 s4 hf4 hD4 hc3).1⟩
+
+/-- **The life of a hostname-search channel that is stopped by `stop_resolve_hostname`**, over a
+    whole history: as `browse_channel_lifecycle`, with the host name given in any letter case at
+    the start (`host1`) and at the stop (`host2`, `lower host2 = lower host1`), and no time-out
+    reached before the stop. -/
+theorem resolve_channel_lifecycle (t0 : Nat) (intfs : List Intf) (ch : Nat) (host1 host2 : BList) (to : Option Nat)
+    (h1 h2 h3 : List (Nat × List Packet × List Command)) (t1 t2 : Nat) (p1 p2 : List Packet)
+    (pre1 post1 pre2 post2 : List Command) (hcase : lower host2 = lower host1)
+    (hc1 : ∀ it ∈ h1, ∀ c ∈ it.2.2, cchan c ≠ some ch) (hpre1 : ∀ c ∈ pre1, cchan c ≠ some ch)
+    (hpost1 : ∀ c ∈ post1, cchan c ≠ some ch) (hc2 : ∀ it ∈ h2, ∀ c ∈ it.2.2, cchan c ≠ some ch)
+    (hpre2 : ∀ c ∈ pre2, cchan c ≠ some ch) (hpost2 : ∀ c ∈ post2, cchan c ≠ some ch)
+    (hc3 : ∀ it ∈ h3, ∀ c ∈ it.2.2, cchan c ≠ some ch)
+    (hk1 : post1.all (fun c => !touchesHost (lower host1) c) = true)
+    (hk2 : ∀ it ∈ h2, it.2.2.all (fun c => !touchesHost (lower host1) c) = true ∧ ∀ t, to = some t → it.1 < t1 + t)
+    (hk3 : pre2.all (fun c => !touchesHost (lower host1) c) = true) (hdl : ∀ t, to = some t → t2 < t1 + t) :
+    let s1 := (run (init t0 intfs) h1).1
+    let s2 := (iter s1 t1 p1 (pre1 ++ .resolveHost host1 ch to :: post1)).1
+    let s3 := (run s2 h2).1
+    let s4 := (iter s3 t2 p2 (pre2 ++ .stopResolve host2 :: post2)).1
+    (∀ t e, (t, Out.event ch e) ∉ (run (init t0 intfs) h1).2) ∧
+    (∃ a b, (iter s1 t1 p1 (pre1 ++ .resolveHost host1 ch to :: post1)).2 = a ++ Out.event ch .hstarted :: b ∧
+      ∀ e, Out.event ch e ∉ a) ∧
+    (∃ a b, (iter s3 t2 p2 (pre2 ++ .stopResolve host2 :: post2)).2 =
+        a ++ Out.event ch (.hstopped (lower host1)) :: b ∧ ∀ e, Out.event ch e ∉ b) ∧
+    (∀ t e, (t, Out.event ch e) ∉ (run s4 h3).2) := by
+  intro s1 s2 s3 s4
+  obtain ⟨hf0, hD0⟩ := chanFree_init ch t0 intfs
+  obtain ⟨q1, hf1, hD1⟩ := silent_for_ever ch h1 _ hf0 hD0 hc1
+  have hstart := first_event_started_resolve ch s1 t1 p1 pre1 host1 to post1 hf1 hD1 hpre1
+  obtain ⟨ho2, hD2⟩ := resolve_owns_channel ch s1 t1 p1 pre1 host1 to post1 hf1 hD1 hpre1 hpost1
+  have hdl' : ∀ (now : Nat), (∀ t, to = some t → now < t1 + t) → ∀ t, to.map (t1 + ·) = some t → now < t := by
+    intro now h t ht
+    cases to with
+    | none => simp at ht
+    | some t' =>
+      simp only [Option.map_some, Option.some.injEq] at ht
+      exact ht ▸ h t' rfl
+  have hr2 : Searching (lower host1) ch (to.map (t1 + ·)) s2 := by
+    show Searching _ _ _ (iter s1 t1 p1 (pre1 ++ .resolveHost host1 ch to :: post1)).1
+    rw [(iter_split s1 t1 p1 pre1 (.resolveHost host1 ch to) post1).1]
+    exact searching_tail _ ch _ _ t1 post1 hk1 (searching_after_resolve host1 ch to _ t1)
+  obtain ⟨ho3, hD3⟩ := onlyHost_run ch (lower host1) h2 s2 ho2 hD2 hc2
+  have hr3 : Searching (lower host1) ch (to.map (t1 + ·)) s3 :=
+    searching_run _ ch _ h2 s2 (fun it hit => ⟨(hk2 it hit).1, hdl' it.1 (hk2 it hit).2⟩) hr2
+  have hq : (runCommands (preCommands s3 t2 p2) t2 pre2).1.resolvers.find? (·.1 == lower host2) =
+      some (lower host2, ch, to.map (t1 + ·)) := by
+    rw [hcase]
+    exact searching_runCommands _ ch _ t2 pre2 _ hk3 (searching_preCommands _ ch _ s3 t2 p2 (hdl' t2 hdl) hr3)
+  obtain ⟨a, b, hab, hb, hf4, hD4⟩ := stop_resolve_final ch host2 _ s3 t2 p2 pre2 post2 (hcase ▸ ho3) hD3 hpre2 hpost2 hq
+  rw [hcase] at hab
+  exact ⟨q1, hstart, ⟨a, b, hab, hb⟩, (silent_for_ever ch h3 s4 hf4 hD4 hc3).1⟩
+
+/-! #### the time-out case -/
+
+/-- **A stale channel stays silent for ever**: after the time-out of a hostname search (see
+    `timeout_ends_for_good`) the only thing that may still refer to `ch` is the queued
+    retransmission of the ended search; it is inert (it does nothing while no search for the
+    name is open, and a new search for the name - in any letter case, on any channel - purges
+    it).  No later iteration emits anything on `ch`, whatever arrives and whatever other searches
+    do, until a command gives `ch` to a new search. -/
+theorem stale_silent_for_ever (ch : Nat) (key : BList) : ∀ (h : List (Nat × List Packet × List Command)) (s : State),
+    Stale ch key s → (∀ it ∈ h, ∀ c ∈ it.2.2, cchan c ≠ some ch) →
+    (∀ t e, (t, Out.event ch e) ∉ (run s h).2) ∧ Stale ch key (run s h).1
+  | [], s, hs, _ => ⟨fun _ _ hm => (by cases hm), hs⟩
+  | (now, pkts, cmds) :: rest, s, hs, hc => by
+    obtain ⟨h1, h2⟩ := stale_iter ch key s now pkts cmds hs (hc _ List.mem_cons_self)
+    obtain ⟨h3, h4⟩ := stale_silent_for_ever ch key rest _ h2 (fun it hit => hc it (List.mem_cons_of_mem _ hit))
+    simp only [run]
+    refine ⟨?_, h4⟩
+    intro t e hm
+    rcases List.mem_append.mp hm with hm | hm
+    · obtain ⟨o, ho, he⟩ := List.mem_map.mp hm
+      cases he
+      exact h1 e ho
+    · exact h3 t e hm
+
+/-- **The time-out ends the search for good (the iteration of the time-out).**  The hostname
+    search for `key` is the only user of `ch` and is open with deadline `dl`; an iteration runs
+    at `now ≥ dl` (its commands do not mention `ch`).  It emits `SearchTimeout` immediately
+    followed by `SearchStopped` on `ch` and nothing on `ch` after that; afterwards the channel is
+    stale (`stale_silent_for_ever`). -/
+theorem timeout_ends_for_good (ch : Nat) (key : BList) (dl : Nat) (s : State) (now : Nat) (pkts : List Packet)
+    (cmds : List Command) (ho : OnlyHost ch key s) (hD : DelaysOk s) (hs : Searching key ch (some dl) s)
+    (hn : ResolverKeysNodup s) (hdue : dl ≤ now) (hc : ∀ c ∈ cmds, cchan c ≠ some ch) :
+    ∃ a b, (iter s now pkts cmds).2 = a ++ Out.event ch (.htimeout key) :: Out.event ch (.hstopped key) :: b ∧
+      (∀ e, Out.event ch e ∉ b) ∧ Stale ch key (iter s now pkts cmds).1 :=
+  timeout_final ch key dl s now pkts cmds ho hD hs hn hdue hc
+
+theorem resolverKeys_run : ∀ (h : List (Nat × List Packet × List Command)) (s : State), ResolverKeysNodup s →
+    ResolverKeysNodup (run s h).1
+  | [], _, hn => hn
+  | (now, pkts, cmds) :: rest, s, hn => by
+    simp only [run]
+    exact resolverKeys_run rest _ (resolverKeys_iter s now pkts cmds hn)
+
+/-- **The life of a hostname-search channel that ends by its time-out**, over a whole history
+    from the start of the daemon.  `h1`: any history that never mentions `ch`.  Then an iteration
+    at `t1` whose commands are `pre1 ++ resolve_hostname(host, timeout to) on ch :: post1`.  `h2`:
+    any history whose iterations all run before the deadline `t1 + to`.  Then an iteration at
+    `t2 ≥ t1 + to`.  `h3`: any history.  No other command mentions `ch`; before the deadline no
+    command searches or stops the name again.  Then, on channel `ch`:
+    1. nothing during `h1`;  2. in the iteration of the call the first event is `SearchStarted`;
+    3. in the first iteration at or after the deadline, `SearchTimeout` then `SearchStopped` are
+       emitted and nothing after them;  4. nothing during `h3`. -/
+theorem timeout_channel_lifecycle (t0 : Nat) (intfs : List Intf) (ch : Nat) (host : BList) (to : Nat)
+    (h1 h2 h3 : List (Nat × List Packet × List Command)) (t1 t2 : Nat) (p1 p2 : List Packet)
+    (pre1 post1 cmds2 : List Command)
+    (hc1 : ∀ it ∈ h1, ∀ c ∈ it.2.2, cchan c ≠ some ch) (hpre1 : ∀ c ∈ pre1, cchan c ≠ some ch)
+    (hpost1 : ∀ c ∈ post1, cchan c ≠ some ch) (hc2 : ∀ it ∈ h2, ∀ c ∈ it.2.2, cchan c ≠ some ch)
+    (hcmds2 : ∀ c ∈ cmds2, cchan c ≠ some ch) (hc3 : ∀ it ∈ h3, ∀ c ∈ it.2.2, cchan c ≠ some ch)
+    (hk1 : post1.all (fun c => !touchesHost (lower host) c) = true)
+    (hk2 : ∀ it ∈ h2, it.2.2.all (fun c => !touchesHost (lower host) c) = true ∧ it.1 < t1 + to)
+    (hdue : t1 + to ≤ t2) :
+    let s1 := (run (init t0 intfs) h1).1
+    let s2 := (iter s1 t1 p1 (pre1 ++ .resolveHost host ch (some to) :: post1)).1
+    let s3 := (run s2 h2).1
+    let s4 := (iter s3 t2 p2 cmds2).1
+    (∀ t e, (t, Out.event ch e) ∉ (run (init t0 intfs) h1).2) ∧
+    (∃ a b, (iter s1 t1 p1 (pre1 ++ .resolveHost host ch (some to) :: post1)).2 = a ++ Out.event ch .hstarted :: b ∧
+      ∀ e, Out.event ch e ∉ a) ∧
+    (∃ a b, (iter s3 t2 p2 cmds2).2 =
+        a ++ Out.event ch (.htimeout (lower host)) :: Out.event ch (.hstopped (lower host)) :: b ∧
+      ∀ e, Out.event ch e ∉ b) ∧
+    (∀ t e, (t, Out.event ch e) ∉ (run s4 h3).2) := by
+  intro s1 s2 s3 s4
+  obtain ⟨hf0, hD0⟩ := chanFree_init ch t0 intfs
+  obtain ⟨q1, hf1, hD1⟩ := silent_for_ever ch h1 _ hf0 hD0 hc1
+  have hstart := first_event_started_resolve ch s1 t1 p1 pre1 host (some to) post1 hf1 hD1 hpre1
+  obtain ⟨ho2, hD2⟩ := resolve_owns_channel ch s1 t1 p1 pre1 host (some to) post1 hf1 hD1 hpre1 hpost1
+  have hr2 : Searching (lower host) ch (some (t1 + to)) s2 := by
+    show Searching _ _ _ (iter s1 t1 p1 (pre1 ++ .resolveHost host ch (some to) :: post1)).1
+    rw [(iter_split s1 t1 p1 pre1 (.resolveHost host ch (some to)) post1).1]
+    exact searching_tail _ ch _ _ t1 post1 hk1 (searching_after_resolve host ch (some to) _ t1)
+  obtain ⟨ho3, hD3⟩ := onlyHost_run ch (lower host) h2 s2 ho2 hD2 hc2
+  have hr3 : Searching (lower host) ch (some (t1 + to)) s3 :=
+    searching_run _ ch _ h2 s2 (fun it hit => ⟨(hk2 it hit).1, fun t ht => by cases ht; exact (hk2 it hit).2⟩) hr2
+  have hn3 : ResolverKeysNodup s3 := by
+    apply resolverKeys_run
+    apply resolverKeys_iter
+    apply resolverKeys_run
+    show ((init t0 intfs).resolvers.map (·.1)).Nodup
+    exact List.nodup_nil
+  obtain ⟨a, b, hab, hb, hst⟩ := timeout_final ch (lower host) (t1 + to) s3 t2 p2 cmds2 ho3 hD3 hr3 hn3 hdue hcmds2
+  exact ⟨q1, hstart, ⟨a, b, hab, hb⟩, (stale_silent_for_ever ch (lower host) h3 s4 hst hc3).1⟩
+
+/-! #### non-vacuity -/
+
+/-- a browse with an announcement, its stop, and a long tail: the events on channel 1 are
+    `SearchStarted` first (twice more with the retransmissions), found / resolved in between,
+    `SearchStopped` last and once; no PTR query for the type after the stop.  Codes: 1 =
+    `SearchStarted`, 2 = `ServiceFound`, 3 = `ServiceResolved`, 4 = `SearchStopped`, 9 = the PTR
+    query for the type. -/
+example :
+    ((run (init 1000 [C03.eth0])
+        [(1000, [], [.browse C03.ty 1 false]), (1500, [C03.announce], []), (2000, [], []),
+         (2500, [], [.stopBrowse C03.ty]), (4000, [], []), (8000, [C03.announce], []), (100000, [], [])]).2.filterMap
+        fun o => (match o.2 with
+          | .event 1 .started => some (o.1, 1)
+          | .event 1 (.found ..) => some (o.1, 2)
+          | .event 1 (.resolved ..) => some (o.1, 3)
+          | .event 1 (.stopped ..) => some (o.1, 4)
+          | .event 1 _ => some (o.1, 0)
+          | .query [(n, 12)] _ => if n == C03.ty then some (o.1, 9) else none
+          | _ => none : Option (Nat × Nat))) =
+      [(1000, 1), (1000, 9), (1500, 2), (1500, 3), (2000, 1), (2000, 9), (2500, 4)] := by decide
+
+/-- a hostname search in mixed case, stopped in another letter case: `SearchStopped` is the last
+    event on the channel, no address query for the name afterwards.  Codes: 1 = `SearchStarted`,
+    4 = `SearchStopped`, 9 = a query the search causes (`asksHost`). -/
+example :
+    ((run (init 1000 [C03.eth0])
+        [(1000, [], [.resolveHost [0x48, 0x2e] 7 none]), (2000, [], []), (2500, [], [.stopResolve [0x68, 0x2e]]),
+         (4000, [], []), (8000, [], []), (100000, [], [])]).2.filterMap
+        fun o => (match o.2 with
+          | .event 7 .hstarted => some (o.1, 1)
+          | .event 7 (.hstopped _) => some (o.1, 4)
+          | .event 7 _ => some (o.1, 0)
+          | q => if asksHost [0x68, 0x2e] q then some (o.1, 9) else none : Option (Nat × Nat))) =
+      [(1000, 1), (1000, 9), (2000, 1), (2000, 9), (2500, 4)] := by decide
+
+/-- a hostname search with a 3.5 s time-out that nobody answers, then the same name searched
+    again on another channel: on channel 7 `SearchStarted` (1), `SearchTimeout` (3) then
+    `SearchStopped` (4) at 4500, and nothing afterwards - the retransmission that stayed queued
+    for 8000 does nothing and the new search on channel 8 does not wake the old channel -/
+example :
+    ((run (init 1000 [C03.eth0])
+        [(1000, [], [.resolveHost [0x48, 0x2e] 7 (some 3500)]), (2000, [], []), (4000, [], []), (4500, [], []),
+         (6000, [], [.resolveHost [0x68, 0x2e] 8 none]), (7000, [], []), (8000, [], []), (100000, [], [])]).2.filterMap
+        fun o => (match o.2 with
+          | .event 7 .hstarted => some (o.1, 1)
+          | .event 7 (.htimeout _) => some (o.1, 3)
+          | .event 7 (.hstopped _) => some (o.1, 4)
+          | .event 7 _ => some (o.1, 0)
+          | _ => none : Option (Nat × Nat))) =
+      [(1000, 1), (2000, 1), (4000, 1), (4500, 3), (4500, 4)] := by decide
+
+end ClientModel
 
 end Mdns.Props.C13
